@@ -12,4 +12,14 @@ CHECKS = {
   "note": "Trusted: Coq kernel + vm_compute; gen_tables.py; harness adapters; regex parse of extension strings is glue. "
           "Accidental cells are pinned as a golden table. Chord/bass-note theorem is for bare figures; modifier sets are tied by correspondence (C02 proves their laws).",
  },
+ "C02": {
+  "text": "Theorems: generated mode table = rotations of major (+harmonic/melodic minor); chord scale = tonality scale started on the degree "
+          "(all of Z); bare figures = stacked thirds and their rotations (wrapped tones +12), strictly ascending within an octave; chord_pitches "
+          "independent of the inversion for ANY modifier lists; pitch classes preserved under inversion for all 1082 modifier sets of size <= 2 "
+          "(finite kernel sweep, lifted to every degree/octave by an equivariance theorem - bounded in set size, stated so); inversion arithmetic "
+          "for all k in Z (additive, full turn = identity, index = k mod n); modifier order irrelevant (Permutation => same normal form, same chord), "
+          "normalisation and re-application idempotent. Model tied to Chord.__getitem__/invert/to_root_extension/normalize by differential execution.",
+  "note": "Trusted: Coq kernel + vm_compute; gen_tables.py; adapters; the regex tokeniser/printer of extension strings is glue exercised end to end "
+          "(a defect found there was fixed: 8bc1777). Pitch-class theorem for modifier sets of size > 2 is tied only by correspondence + oracle.",
+ },
 }
